@@ -1628,12 +1628,14 @@ func (m *c17M) invoke(target *c17Fn, args []c17V, sig *types.Signature) c17V {
 
 // c17Clusters segments the test alphabet into grapheme clusters: a base rune
 // followed by any number of U+0301 / U+FE0F (UAX #29 GB9: do not break before Extend); two regional
-// indicators form one flag (GB12/GB13).
+// indicators form one flag (GB12/GB13); controls and format characters (C0, U+00AD, U+200B, U+2060,
+// U+FEFF) are clusters of their own (GB4/GB5) of display width 0, as is a combining mark without a base.
 func c17Clusters(s string) []string {
 	var out []string
 	isRI := func(r rune) bool { return r >= 0x1F1E6 && r <= 0x1F1FF }
 	for _, r := range s {
-		if (r == 0x301 || r == 0xFE0F) && len(out) > 0 {
+		// GB4/GB5: a Control (C0, U+00AD, U+200B, U+2060, U+FEFF) is a cluster of its own; nothing attaches to it
+		if (r == 0x301 || r == 0xFE0F) && len(out) > 0 && !c17IsControl(out[len(out)-1]) {
 			out[len(out)-1] += string(r)
 			continue
 		}
@@ -1649,8 +1651,21 @@ func c17Clusters(s string) []string {
 	return out
 }
 
+// c17IsControl: the cluster is a single character of Grapheme_Cluster_Break=Control (test alphabet only).
+func c17IsControl(cl string) bool {
+	r, n := utf8.DecodeRuneInString(cl)
+	if n != len(cl) {
+		return false
+	}
+	return r < 0x20 || r == 0x7F || r == 0xAD || r == 0x200B || r == 0x2060 || r == 0xFEFF
+}
+
 func c17ClusterWidth(cl string) int {
 	r, _ := utf8.DecodeRuneInString(cl)
+	// zero-width graphemes: controls / format characters and a combining mark with no base
+	if c17IsControl(cl) || r == 0x301 || r == 0xFE0F {
+		return 0
+	}
 	if (r >= 0x2E80 && r <= 0x9FFF) || (r >= 0x1F1E6 && r <= 0x1F1FF) {
 		return 2
 	}
@@ -2250,7 +2265,7 @@ func c17SemTextField(c *Ctx, m *c17M, ty *c17Types) {
 	}
 	keys := m.keys
 	code := keys.constBindings(he) // only to find bindings outside the reference table
-	values := []string{"", "a", "ab", "abc", "a世c", "e\u0301b"}
+	values := []string{"", "a", "ab", "abc", "a世c", "e\u0301b", "a\u200bb"}
 	if c.Tier == "thorough" {
 		values = append(values, "abcdefgh", "世e\u0301世x", "  ab  ", "e\u0301e\u0301e\u0301")
 	}
@@ -2515,7 +2530,7 @@ func c17SemTextInput(c *Ctx, m *c17M, ty *c17Types) {
 		{'h', ctrl, "delLeft"}, {kc("KeyBackspace"), 0, "delLeft"}, {'w', ctrl, "killWordBack"},
 	}
 	code := keys.constBindings(up) // only to find bindings outside the reference table
-	contents := []string{"", "a", "ab", "a b", "ab cd", " a", "a  b ", "世b", "e\u0301b", "ab,cd"}
+	contents := []string{"", "a", "ab", "a b", "ab cd", " a", "a  b ", "世b", "e\u0301b", "ab,cd", "a\u200bb"}
 	if c.Tier == "thorough" {
 		contents = append(contents, "abc def ghi", "a,b;c d", "世 世e\u0301", "  ", "1a 2b", "a\tb")
 	}
@@ -2771,7 +2786,8 @@ func c17SemDraw(c *Ctx, m *c17M, ty *c17Types) {
 				margin = v
 			}
 			term, col := &c17Verdict{}, &c17Verdict{}
-			drawContents, maxW := []string{"", "ab", "a世c", "abcdefgh"}, 16
+			// zero-width graphemes at the start, in the middle, doubled and at the end: the cursor column counts width, not graphemes
+			drawContents, maxW := []string{"", "ab", "a世c", "abcdefgh", "a\u200bbc", "\u200bab", "ab\u2060", "\u0301ab", "a\x01\ufeffb", "世\u00ade\u0301"}, 16
 			if c.Tier == "thorough" {
 				drawContents, maxW = append(drawContents, "abcdefghijklmnopqrst", "世世世世世世", "e\u0301e\u0301 x"), 32
 			}
@@ -2828,7 +2844,7 @@ func c17SemDraw(c *Ctx, m *c17M, ty *c17Types) {
 			return
 		}
 		v := &c17Verdict{}
-		for _, val := range []string{"", "ab", "a世c", "e\u0301b世"} {
+		for _, val := range []string{"", "ab", "a世c", "e\u0301b世", "a\u200bbc", "\u200bab", "ab\u2060", "\u0301ab", "a\x01\ufeffb", "世\u00ade\u0301"} {
 			cls := c17Clusters(val)
 			for cur := 0; cur <= len(cls); cur++ {
 				for w := 0; w <= 8; w++ {
